@@ -1,3 +1,4 @@
+import ast
 from typing import Iterator
 
 from inline_snapshot._adapter.adapter import adapter_map
@@ -31,6 +32,27 @@ class UndecidedValue(GenericValue):
     def _get_changes(self) -> Iterator[Change]:
 
         def handle(node, obj):
+
+            if isinstance(node, ast.JoinedStr):
+                # f-strings are not changed
+                return
+
+            if (
+                (
+                    isinstance(node, (ast.List, ast.Tuple))
+                    and any(isinstance(e, ast.Starred) for e in node.elts)
+                )
+                or (isinstance(node, ast.Dict) and None in node.keys)
+                or (
+                    isinstance(node, ast.Call)
+                    and (
+                        any(isinstance(a, ast.Starred) for a in node.args)
+                        or any(kw.arg is None for kw in node.keywords)
+                    )
+                )
+            ):
+                # star-expressions are not supported inside snapshots
+                return
 
             adapter = get_adapter_type(obj)
             if adapter is not None and hasattr(adapter, "items"):
